@@ -396,6 +396,48 @@ func RunCmd(dir string, timeout time.Duration, extraEnv []string, name string, a
 	return buf.String(), err
 }
 
+// runWithJobWatchdog runs the batch process and kills it when the marker file
+// (the id of the job in progress, rewritten by the child before every job)
+// has named the same job for longer than stall: a generation that does not
+// terminate is then attributed to that job instead of to the whole batch's
+// far longer deadline.
+func runWithJobWatchdog(dir string, timeout, stall time.Duration, marker string, name string, args ...string) (string, error) {
+	ctx, cancel := context.WithTimeout(context.Background(), timeout)
+	defer cancel()
+	cmd := exec.CommandContext(ctx, name, args...)
+	cmd.Dir = dir
+	cmd.Env = GoEnv()
+	var buf bytes.Buffer
+	cmd.Stdout = &buf
+	cmd.Stderr = &buf
+	if err := cmd.Start(); err != nil {
+		return "", err
+	}
+	done := make(chan error, 1)
+	go func() { done <- cmd.Wait() }()
+	last, since := "", time.Now()
+	tick := time.NewTicker(500 * time.Millisecond)
+	defer tick.Stop()
+	for {
+		select {
+		case err := <-done:
+			if ctx.Err() == context.DeadlineExceeded {
+				return buf.String(), fmt.Errorf("timeout after %s", timeout)
+			}
+			return buf.String(), err
+		case <-tick.C:
+			bs, _ := os.ReadFile(marker)
+			if cur := string(bs); cur != last {
+				last, since = cur, time.Now()
+			} else if cur != "" && time.Since(since) > stall {
+				_ = cmd.Process.Kill()
+				<-done
+				return buf.String(), fmt.Errorf("job %s did not finish within %s (process killed)", cur, stall)
+			}
+		}
+	}
+}
+
 // BuildVgen builds the in-process harness from the current /repo tree.
 func (r *Run) BuildVgen() (string, error) {
 	bin := filepath.Join(r.Scratch, "vgen")
@@ -492,6 +534,7 @@ func (r *Run) RunJobs(vgen string, jobs []Job, workers int, perJobTimeout time.D
 		go func(w int, mine []Job) {
 			defer wg.Done()
 			round := 0
+			stalls := 0
 			for len(mine) > 0 {
 				round++
 				jf := filepath.Join(r.Scratch, fmt.Sprintf("jobs-%d-%d.jsonl", w, round))
@@ -505,7 +548,17 @@ func (r *Run) RunJobs(vgen string, jobs []Job, workers int, perJobTimeout time.D
 				}
 				_ = os.WriteFile(jf, buf.Bytes(), 0o644)
 				timeout := time.Duration(len(mine))*perJobTimeout + 30*time.Second
-				out, err := RunCmd(r.Scratch, timeout, nil, vgen, jf, rf, mf)
+				// once this worker has seen jobs that do not terminate, the next ones get
+				// less patience (a generation takes milliseconds; the verdict is already
+				// a violation)
+				stall := perJobTimeout >> uint(stalls)
+				if stall < 2*time.Second {
+					stall = 2 * time.Second
+				}
+				out, err := runWithJobWatchdog(r.Scratch, timeout, stall, mf, vgen, jf, rf, mf)
+				if err != nil && strings.Contains(err.Error(), "did not finish within") && stalls < 8 {
+					stalls++
+				}
 				done := map[string]bool{}
 				if f, ferr := os.Open(rf); ferr == nil {
 					sc := bufio.NewScanner(f)
